@@ -172,7 +172,7 @@ func checkRaceCase(st *Stats, rc *RaceCase) string {
 	case "multi":
 		c := rc.Multi.Base
 		req := &vrun.MultiRequest{Main: vcase.RenderYAML(c.Main), Files: map[string]string{}, Script: c.Script, Rounds: rc.Multi.Rounds,
-			RePrepareBetween: rc.Multi.RePrepare, ConcurrentPrepares: rc.Preps, WatchdogMs: 60000}
+			RePrepareBetween: rc.Multi.RePrepare, SharedParsed: rc.Multi.SharedParsed, ConcurrentPrepares: rc.Preps, WatchdogMs: 60000}
 		for name, p := range c.Subs {
 			req.Files[name] = vcase.RenderYAML(p)
 		}
